@@ -206,6 +206,83 @@ def no_working_dir_means_none(ctx, idx, rule, consequence=""):
         ctx.hold(rule, con, K.rel(pp), tests[0].line, "InvalidRelativePath is decided by `working_dir is None`")
 
 
+def tuple_text_to_text(ctx, idx, rule, consequence=""):
+    """-> list of "cannot decide" messages"""
+    und_h = []
+    # ---- h: a tuple cleans to text -> text
+    ctx.rule(rule, "A tuple cleans to {text: text}: every non-empty value TupleParameter.clean returns is built with both keys and values converted to text, or is the raw mapping itself under a test that ALL its keys and ALL its values are text already (iterating a mapping yields its keys only: `all(isinstance(x, str) for x in value)` says nothing about the values the parser delivers as numbers).")
+    tp = idx.cls("mpilot.params", "TupleParameter")
+    tcl = tp.methods.get("clean") if tp is not None else None
+    if tcl is None:
+        raise AnalysisError(rule + ": TupleParameter.clean vanished")
+    vname = tcl.node.args.args[1].arg
+    TEXT = ("six.text_type", "str", "text_type", "six.u")
+    parh = {}
+    for x_ in ast.walk(tcl.node):
+        for ch_ in ast.iter_child_nodes(x_):
+            parh[id(ch_)] = x_
+
+    def _texted(e_):
+        return isinstance(e_, ast.Call) and K.src(e_.func) in TEXT and len(e_.args) == 1
+
+    def _both_sides_text(t_):
+        """all(isinstance(k, T) and isinstance(v, T) for k, v in value.items())"""
+        if not (isinstance(t_, ast.Call) and K.src(t_.func) == "all" and len(t_.args) == 1 and isinstance(t_.args[0], (ast.GeneratorExp, ast.ListComp)) and len(t_.args[0].generators) == 1):
+            return None
+        g_ = t_.args[0].generators[0]
+        el_ = t_.args[0].elt
+        tested = {K.src(c_.args[0]) for c_ in ast.walk(el_) if isinstance(c_, ast.Call) and K.src(c_.func) == "isinstance" and len(c_.args) == 2 and ("text_type" in K.src(c_.args[1]) or "string_types" in K.src(c_.args[1]) or K.src(c_.args[1]) in ("str", "(str,)"))}
+        if isinstance(g_.target, ast.Tuple) and len(g_.target.elts) == 2 and K.src(g_.iter) == "%s.items()" % vname and not g_.ifs:
+            names_ = {K.src(x_) for x_ in g_.target.elts}
+            return names_ <= tested and isinstance(el_, (ast.BoolOp, ast.Call)) and not (isinstance(el_, ast.BoolOp) and isinstance(el_.op, ast.Or))
+        return False  # walks the mapping itself (its keys), or only one side
+
+    def _ret_ok(e_, node_):
+        if isinstance(e_, ast.Dict) and not e_.keys:
+            return True, None
+        if isinstance(e_, ast.DictComp):
+            ok_ = _texted(e_.key) and _texted(e_.value)
+            return ok_, None if ok_ else "`%s` does not convert both the key and the value to text" % K.src(e_)[:60]
+        if isinstance(e_, ast.Call) and K.src(e_.func) in ("dict", "OrderedDict", "collections.OrderedDict") and len(e_.args) == 1 and isinstance(e_.args[0], (ast.GeneratorExp, ast.ListComp)) \
+                and isinstance(e_.args[0].elt, ast.Tuple) and len(e_.args[0].elt.elts) == 2:
+            ok_ = all(_texted(x_) for x_ in e_.args[0].elt.elts)
+            return ok_, None if ok_ else "`%s` does not convert both the key and the value to text" % K.src(e_)[:60]
+        if isinstance(e_, ast.IfExp):
+            a_, wa_ = _ret_ok(e_.body, node_)
+            b_, wb_ = _ret_ok(e_.orelse, node_)
+            if a_ is None or b_ is None:
+                return None, wa_ or wb_
+            return a_ and b_, wa_ or wb_
+        if isinstance(e_, ast.Name) and e_.id == vname:
+            # the raw mapping handed back: under which tests?
+            up_, ch2_ = parh.get(id(node_)), node_
+            verdict = None
+            while up_ is not None and up_ is not tcl.node:
+                if isinstance(up_, ast.If) and any(ch2_ is b_ for b_ in up_.body):
+                    for t_ in (up_.test.values if isinstance(up_.test, ast.BoolOp) and isinstance(up_.test.op, ast.And) else [up_.test]):
+                        if isinstance(t_, ast.UnaryOp) and isinstance(t_.op, ast.Not) and K.src(t_.operand) == vname:
+                            return True, None  # the empty mapping
+                        r_ = _both_sides_text(t_)
+                        if r_ is True:
+                            return True, None
+                        if r_ is False:
+                            verdict = "`%s` is returned as it is under `%s`, which tests the keys only (iterating a mapping yields its keys): a value the parser delivered as a number (`[Year: 2020]`) comes back as a number, not as text" % (vname, K.src(t_)[:70])
+                ch2_, up_ = up_, parh.get(id(up_))
+            return False, verdict or "`%s` is returned as it is without a test that its keys and values are text: numeric values come back as numbers" % vname
+        return None, "return value `%s` is outside the recognised forms" % K.src(e_)[:60]
+
+    n_ret = 0
+    for r_ in [x_ for x_ in own_nodes(tcl.node) if isinstance(x_, ast.Return) and x_.value is not None]:
+        n_ret += 1
+        ok_, why_ = _ret_ok(r_.value, r_)
+        if ok_ is None:
+            und_h.append("%s: %s" % (rule, why_))
+            continue
+        ctx.ob(rule, "%s::return#%d::text-to-text" % (tcl.key, n_ret), K.rel(tcl), r_.lineno, ok_, "keys and values are converted to text (or the mapping is empty / tested on both sides)" if ok_ else why_ + consequence)
+    ctx.floor(rule, "returns of TupleParameter.clean", n_ret, 1)
+    return und_h
+
+
 def run(ctx, idx):
     ctx.assume("operation table of Engine D: int()/float() raise ValueError on str and TypeError on containers/objects; os.path functions raise TypeError on non-str; dict lookup raises KeyError, and TypeError for unhashable keys; six.text_type is total")
     ctx.assume("raw kinds are those the parser or API can deliver: int, float, bool, str, (non-)empty list/tuple/dict, command; plus type for DataType and ndarray for Data (their cleaned kinds)")
@@ -289,6 +366,7 @@ def run(ctx, idx):
             ctx.violate("C20.d", con, K.rel(fi), fi.node.lineno, "clean has effects: %s" % "; ".join(eff[:3]))
         else:
             ctx.hold("C20.d", con, K.rel(fi), fi.node.lineno, "no stores through value/program, no mutating calls, no global/self stores, no I/O", nontrivial=own is not None)
+    und_h = tuple_text_to_text(ctx, idx, "C20.h")
     # result touched only under the finished guard (shared with C12.b)
     rp = idx.cls("mpilot.params", "ResultParameter").methods.get("clean")
     c = K.cfg_of(idx, rp)
@@ -489,3 +567,5 @@ def run(ctx, idx):
                 r = n.body[0] if n.body else None
                 good = isinstance(r, ast.Return) and isinstance(r.value, ast.Constant) and r.value.value is want
                 ctx.ob("C20.e", "%s::boolean(%s)" % (bp.key, n.test.comparators[0].value), K.rel(bp), n.lineno, good, "'%s' -> %s" % (n.test.comparators[0].value, want) if good else "the string '%s' does not clean to %s" % (n.test.comparators[0].value, want))
+    if und_h:
+        raise AnalysisError(und_h[0])
